@@ -161,8 +161,8 @@ fn exec(ctx: &Arc<Ctx>, si: usize, op: &Op) {
                 ],
             });
         }
-        Op::Stop => stop(store),
-        Op::Close => close(store),
+        Op::Stop => stop(store, 10 * si as i64),
+        Op::Close => close(store, 10 * si as i64),
         Op::AddSub { id, gated, reads } => {
             let sub = Arc::new(ScriptSub {
                 id: *id,
@@ -316,6 +316,7 @@ pub fn run(p: &Program) {
             reducer_gate: if spec.reducer_gate { Some(gates[0]) } else { None },
             reducer_gate_only: spec.reducer_gate_only,
             effect_gate: Some(gates[1]),
+            gate_idx: 0,
         };
         cfg.name = spec.name.map(|s| s.to_string());
         for m in 0..spec.mws {
